@@ -218,6 +218,19 @@ pub fn gen_c04(o: &mut Out, tier: &str, sd: u64) {
                     let mut m = bytes.clone(); m[f..f + 32].copy_from_slice(&n);
                     o.op_exp("bytes.z+ell", "R", &format!("verify range{} {}", w, hex(&m)));
                 }
+                // the same scalar with each of the three top bits set (2^253, 2^254, 2^255 added: all non-canonical), and k*ell for k = 2..4
+                for bit in [5u8, 6, 7] {
+                    let mut m = bytes.clone(); m[f + 31] |= 1 << bit;
+                    o.op_exp("bytes.scalar-high-bit", "R", &format!("verify range{} {}", w, hex(&m)));
+                }
+                let mut c2 = cur;
+                for _ in 0..3 {
+                    if let Some(n) = crate::gen_sigma::add256(&c2, &ell) { c2 = n; }
+                    if let Some(n) = crate::gen_sigma::add256(&c2, &ell) {
+                        let mut m = bytes.clone(); m[f..f + 32].copy_from_slice(&n);
+                        o.op_exp("bytes.z+k*ell", "R", &format!("verify range{} {}", w, hex(&m)));
+                    }
+                }
             }
             for (_, sv) in crate::gen_sigma::special_values().iter() {
                 let nf = plen / 32;
